@@ -55,6 +55,14 @@ def run(chk, w):
                 chk.ok("C20-ORDER", 1, {"before": n1, "after": n2})
             else:
                 chk.violation("C20-ORDER", reset.name, "%s<%s" % (n1, n2), c2[0].loc(), "%s (line %d) is not preceded by %s (line %d)" % (n2, c2[0].line, n1, c1[0].line))
+        # the feature answers are awaited before the system is enabled: a call that reaches the reader of the internal message queue lies at or after the
+        # features step and before the enable step (the wait is what lets feature messages held back by the node's response budget leave before SYS_ENABLE)
+        waits = calls_to(lambda c: c.callee in P.functions and (c.callee == "bidib_read_intern_message" or rules.call_reaches(P, c, {"bidib_read_intern_message"})))
+        if any((wc.id == feat_c[0].id or reset.dominates(feat_c[0], wc)) and reset.dominates(wc, enable_c[0]) for wc in waits):
+            chk.ok("C20-ORDER", 1, {"feature_answers_awaited": "before enable"})
+        else:
+            chk.violation("C20-ORDER", reset.name, "features<wait<enable", enable_c[0].loc(), "SYS_ENABLE (line %d) is sent without waiting for the feature answers first (no call that reads the "
+                          "internal message queue between the features step and it): feature messages held back by a node's response budget reach the node after it was enabled" % enable_c[0].line)
         # a flush between GO and the initial values
         if any(reset.dominates(go_c[0], f) and reset.dominates(f, init_c[0]) for f in flush_c):
             chk.ok("C20-ORDER", 1, {"flush_between": "GO and initial values"})
@@ -155,6 +163,11 @@ def run(chk, w):
                               "the initial-value command %s is issued only under a condition on tracked feedback state (%s, line %d): whether it is sent depends on what the node has reported so far, not on the configuration and the board's connection" % (c.callee, dep[1], dep[0].line))
             else:
                 chk.ok("C20-INIT", 1)
+
+    # ---- UNCOND (shared with C09): the same for every function the start-up routine reaches
+    from . import c09 as _c09
+    _reach = {n for n in P.reachable_functions([reset.name]) if n in P.functions and P.functions[n].blocks and P.functions[n].relfile.startswith(("src/highlevel/", "src/lowlevel/", "src/state/"))}
+    _c09.uncond_rule(chk, P, S, "C20-UNCOND", _reach, 6)
 
     # ---- CONN: the connected flag / node address that gate and direct every start-up command have fixed writers
     from . import c15
